@@ -1,4 +1,4 @@
 From MV Require Import Lib.ExtractBase C18.Model C18.Instances.
 From Coq Require Import ExtrOcamlBasic.
 Extraction Language OCaml.
-Extraction "c18_model" force_types run_scn wf_scn inst_by_id run_inst dfail_of nvals_of retry_of labels_at op_labels_of inst_ids dead_labels.
+Extraction "c18_model" force_types run_scn wf_scn inst_by_id run_inst dfail_of nvals_of retry_of cont_of orig_id labels_at op_labels_of inst_ids dead_labels.
